@@ -613,15 +613,55 @@ deriving Repr, DecidableEq
 is shared (a fresh allocation at `next`), the message itself otherwise; the
 id is rewritten to the caller's. Returns the message and the next free
 address. -/
-def groupLookupResult (shared : Bool) (leader : Msg) (reqId next : Nat) : Msg × Nat :=
+def groupLookupResult (shared : Bool) (_owned : Bool) (leader : Msg) (reqId next : Nat) : Msg × Nat :=
+  -- `owned` (the REQUEST is lookup-owned: a QNAME-minimised copy) plays no part in what happens to the RESPONSE
   if shared then ({ addr := next, id := reqId, body := leader.body }, next + 1)
   else ({ leader with id := reqId }, next)
 
-/-- every caller of one shared flight, in any order -/
-def shareAll (leader : Msg) : List Nat → Nat → List Msg
+/-- every caller of one shared flight, in any order; each with its own id and
+its own `owned` flag -/
+def shareAll (leader : Msg) : List (Nat × Bool) → Nat → List Msg
   | [], _ => []
-  | id :: t, next =>
-    let (m, next') := groupLookupResult true leader id next
+  | (id, owned) :: t, next =>
+    let (m, next') := groupLookupResult true owned leader id next
     m :: shareAll leader t next'
+
+/-! ### DNS-over-QUIC (`doq.Server.handleConnection / handleStream`, `doq.ResponseWriter`)
+
+Every accepted stream gets its own goroutine, and that goroutine allocates its
+own `ResponseWriter{Conn, Stream}`; goroutine `i` (accept order) serves
+`streams[i]` and writes through `writers[i]`. Handlers complete in any order. -/
+
+structure DoqConn where
+  streams : List Nat := []
+  writers : List Nat := []          -- writers[i].Stream
+  out : List (Nat × Bytes) := []    -- (stream, bytes) in write order
+deriving Repr
+
+inductive DoqEvent
+  | accept (sid : Nat)
+  | complete (i : Nat) (reply : Option Bytes)   -- goroutine i's handler returns, having written `reply` or nothing
+deriving Repr
+
+/-- `ResponseWriter.WriteMsg`: the id leaves as 0, length-prefixed -/
+def doqFrame (b : Bytes) : Bytes := frame (0 :: 0 :: b.drop 2)
+
+def DoqConn.step (c : DoqConn) : DoqEvent → DoqConn
+  | .accept sid => { c with streams := c.streams ++ [sid], writers := c.writers ++ [sid] }
+  | .complete i (some b) =>
+    match c.writers[i]? with
+    | some s => { c with out := c.out ++ [(s, doqFrame b)] }
+    | none => c
+  | .complete _ none => c
+
+def DoqConn.run (c : DoqConn) (evs : List DoqEvent) : DoqConn := evs.foldl DoqConn.step c
+
+/-- the specification: goroutine `i`'s reply leaves on the `i`-th accepted stream -/
+def specDoq : List Nat → List DoqEvent → List (Nat × Bytes)
+  | _, [] => []
+  | acc, .accept sid :: t => specDoq (acc ++ [sid]) t
+  | acc, .complete i (some b) :: t =>
+    (match acc[i]? with | some s => [(s, doqFrame b)] | none => []) ++ specDoq acc t
+  | acc, .complete _ none :: t => specDoq acc t
 
 end SdnsVerif.Model.Slab
